@@ -188,6 +188,32 @@ def bytes_cases(rng, flavor, net, others, count):
 	return cases
 
 
+def misplaced_checksum_cases(rng, flavor, net, count):
+	"""Near misses of the checksum: for `count` key hashes, the addresses (as bytes and as text) whose identifier and key hash are right but
+	whose checksum bytes are some OTHER bytes a sloppy comparison could be satisfied with -- the digest window starting at offset 1, 2, 3
+	and the last window, the leading checksum bytes reversed / rotated, the leading bytes of the other flavor's hash, of the hash of the
+	key hash without the identifier, and of the hash of the whole address.  Only the leading window of the hash of the first 21 bytes matches."""
+	ident = ref_ident(net)
+	size = CHECKSUM_SIZE[flavor]
+	other_flavor = 'nem' if flavor == 'symbol' else 'symbol'
+	cases = []
+	for _ in range(count):
+		version = bytes([ident]) + ref_ripemd(ref_hash(flavor, rand_bytes(rng, 32)))
+		digest = ref_hash(flavor, version)
+		genuine = digest[:size]
+		variants = [(f'checksum-from-digest-offset-{offset}', digest[offset:offset + size]) for offset in (1, 2, 3, 32 - size)]
+		variants += [
+			('checksum-reversed', genuine[::-1]), ('checksum-rotated', genuine[1:] + genuine[:1]),
+			('checksum-of-other-hash', ref_hash(other_flavor, version)[:size]), ('checksum-without-identifier', ref_hash(flavor, version[1:])[:size]),
+			('checksum-of-whole-address', ref_hash(flavor, version + genuine)[:size])]
+		for why, checksum in variants:
+			if checksum == genuine:
+				continue
+			cases.append({'kind': 'bytes', 'flavor': flavor, 'net': net, 'addr': (version + checksum).hex(), 'why': why})
+			cases.append({'kind': 'string', 'flavor': flavor, 'net': net, 'text': ref_text(version + checksum), 'why': why})
+	return cases
+
+
 def b32_cases(rng, count):
 	cases = []
 	for index in range(count):
@@ -225,6 +251,7 @@ def gen_cases(rng, tier):
 			cases.append({'kind': 'derive', 'flavor': flavor, 'net': net, 'other': rng.choice(others), 'pk': key.hex()})
 		cases += string_cases(rng, flavor, net, others, 20 if quick else 520)
 		cases += bytes_cases(rng, flavor, net, others, 6 if quick else 90)
+		cases += misplaced_checksum_cases(rng, flavor, net, 1 if quick else 12)
 	for flavor in ('symbol', 'nem'):
 		# identifiers that are not bytes: bytes([identifier]) raises; correspondence only
 		for ident in (256, -1):
@@ -418,7 +445,9 @@ def run(check, unrecognised):
 		'shipped identifiers are 0x68 (mainnet) and 0x98 (testnet) for both flavors (oracle); the theorems hold for every identifier 0..255']
 	check.extra['rule'] = 'seeded: boundary + random 32-byte keys x {Symbol, NEM} x {mainnet, testnet, 5 custom identifiers incl. 0x00/0xFF}; per network ' \
 		'strings (valid, wrong length, outside alphabet incl. lower case/0/1/8/9/=/non-ASCII, wrong id, wrong checksum/body, single-char mutation, ' \
-		'non-zero trailing bits on Symbol, random, padded) and address bytes (valid, wrong id/checksum/body, random, other-flavor object); ' \
+		'non-zero trailing bits on Symbol, random, padded) and address bytes (valid, wrong id/checksum/body, random, other-flavor object); per network and ' \
+		'key hash the near misses of the checksum as bytes and text (digest window at offset 1, 2, 3 and last, reversed, rotated, other flavor\'s hash, hash without ' \
+		'identifier, hash of the whole address); ' \
 		'base64 encode/decode samples; distinct = distinct (kind, arguments); non-trivial = all (each exercises hashing, decoding or a reject branch)'
 	if unrecognised.get('AddressOps'):
 		check.notes.append(f'anchors not recognised, pinned constants used for them: {unrecognised["AddressOps"]}')
